@@ -71,8 +71,13 @@ def classify(raw, ref, rq, off, obs=None):
         return K_EENOLOG
     canon_differs = M.parse(raw).encode() != raw
     for lvl, e in enumerate(ref.fail_path):
-        if lvl >= 1 and rq in (e["query"], e["full_query"]) and off in (e["action_offset"], e["arg_offset"]):
-            return K_ABSLINKPOS
+        if lvl >= 1 and rq in (e["query"], e["full_query"]) and off is not None:
+            # the named query is an inner link query: is the position the one of the failing element in an ENCLOSING text?
+            enclosing = [raw] + [x[k] for x in ref.fail_path[:lvl] for k in ("query", "full_query")]
+            for t in enclosing:
+                tail = t[off:]
+                if tail.startswith(e["action_text"]) or (e["arg_text"] is not None and tail.startswith(e["arg_text"])):
+                    return K_ABSLINKPOS
         if lvl == 0 and canon_differs and rq == e["query"] and not raw.startswith(rq) and off in (e["action_offset"], e["arg_offset"]):
             return K_CANONPOS
     return None
